@@ -115,6 +115,23 @@ class Rec:
                 message = ""
             R.x = popt
             return R
+        if engine == "curve_fit" and handed is not func and hasattr(func, "func"):
+            # the function handed over is a closure around the declared one (parameters held by equal bounds): observe, at a probe vector,
+            # the FULL parameter vector with which it evaluates the declared function
+            seen, orig_f = [], func.func
+
+            def spy(xx, *a, **k):
+                seen.append(tuple(float(v) for v in a))
+                return orig_f(xx, *a, **k)
+            probe = [float(v) + 0.5 + i for i, v in enumerate(p0)]
+            func.func = spy
+            try:
+                handed(np.asarray(x, dtype=float), *probe)
+            except Exception:  # noqa
+                pass
+            finally:
+                func.func = orig_f
+            c["embed_probe"] = (probe, seen[-1] if seen else None)
         if engine == "curve_fit":
             popt, pcov = self.orig[0](handed, x, y, p0, **kw)
             c["popt"] = tuple(float(v) for v in popt)
@@ -256,7 +273,7 @@ def run_protocol(DP, F, case, mode):
 
 
 PRELUDE = """From V.base Require Import FloatBits.
-From V.model Require Import DepProtocol.
+From V.model Require Import DepProtocol HeldParams.
 Definition compare_obs (n : nat) (ctbl : list (list nat)) (ops : list (nat * nat))
            (e_may : list bool) (e_saved : list (option nat)) (e_fc : list (list nat)) (e_log : list (nat * nat)) : nat :=
   match run_tag n ctbl ops with
@@ -293,6 +310,20 @@ Definition dispatch_cmp (hw : bool) (bounds : option (list (option float * optio
       else if negb (Nat.eqb (List.length (c_constraints c)) e_ncons) then 14
       else 0
   end.
+(* parameters held by equal bounds: 0 ok; 21 free start values; 22 box of the free bounds; 23 sigma; 24 final parameter vector; 25 path *)
+Definition held_cmp (hw : bool) (bs : list (option float * option float)) (p0 : list float) (called : bool)
+           (e_p0 : list float) (e_box : list float * list float) (e_sigma : bool) (e_popt e_final : list float) : nat :=
+  if negb (has_fixed float PrimFloat.eqb bs) then 25
+  else if negb (Bool.eqb called (match ffree_p0 bs p0 with [] => false | _ => true end)) then 25
+  else if negb (list_eqb fbits_eq (ffit_function e_popt hw (Some bs) p0) e_final) then 24
+  else if negb called then 0
+  else if negb (list_eqb fbits_eq (ffree_p0 bs p0) e_p0) then 21
+  else if negb (list_eqb fbits_eq (fst (ffree_box bs)) (fst e_box) && list_eqb fbits_eq (snd (ffree_box bs)) (snd e_box)) then 22
+  else if negb (Bool.eqb hw e_sigma) then 23
+  else 0.
+(* 26: the closure handed to curve_fit evaluates the declared function at scatter(held values, probe) *)
+Definition embed_cmp (bs : list (option float * option float)) (p0 probe seen : list float) : nat :=
+  if list_eqb fbits_eq (scatter float (fixed_of float PrimFloat.eqb bs) p0 probe) seen then 0 else 26.
 """
 
 
@@ -840,6 +871,25 @@ def coq_dispatch_case(R, calls, exc):
     return "(%s false false false None %s %d%%nat)" % (head, raw, k)
 
 
+def coq_held_case(R, calls):
+    """equal bounds on the curve_fit path: the sub-problem handed to curve_fit and the final vector against model/HeldParams.v"""
+    hw = R["weights"] is not None
+    p0 = [float(v) for v in R["dep"].parameters.values()]          # a fresh object: the start values
+    bs = "[%s]" % "; ".join("(%s, %s)" % (opt_fl(lo), opt_fl(hi)) for lo, hi in R["bounds"])
+    if calls:
+        c = calls[0]
+        final = [float(v) for v in c["func"].parameters.values()]
+        lo, hi = c["kw"].get("bounds", ([], []))
+        emb = "26%nat"        # no probe observed: the function handed over is not a closure around the declared one
+        if c.get("embed_probe") and c["embed_probe"][1] is not None:
+            emb = "embed_cmp %s %s %s %s" % (bs, vlib.fl_list(p0), vlib.fl_list(c["embed_probe"][0]), vlib.fl_list(list(c["embed_probe"][1])))
+        return "(match held_cmp %s %s %s true %s (%s, %s) %s %s %s with O => %s | k => k end)" % (
+            "true" if hw else "false", bs, vlib.fl_list(p0), vlib.fl_list(list(c["p0"])),
+            vlib.fl_list([float(v) for v in lo]), vlib.fl_list([float(v) for v in hi]),
+            "true" if c["kw"].get("sigma") is not None else "false", vlib.fl_list(list(c["popt"])), vlib.fl_list(final), emb)
+    return None
+
+
 # ---------------------------------------------------------------------- ConditionalDistribution.fit loop
 TEMPLATES = [("Weibull", {}), ("Weibull", {}), ("Weibull", {"f_alpha": 2.0}), ("Weibull", {"f_beta": 1.7}), ("Weibull", {"f_gamma": 0.1}),
              ("Weibull", {"f_alpha": 2.0, "f_beta": 1.7}), ("Weibull", {"f_beta": 1.7, "f_gamma": 0.1}),
@@ -1343,6 +1393,7 @@ def run(ctx):
         c["seed"] = c["seed"] - c["seed"] % 6 + veq_idx
         singles.insert(j, c)
     disp_lines, disp_cases = [], []
+    held_lines, held_cases = [], []
     single_fail = []
     stat = {}
     for c in singles:
@@ -1352,8 +1403,13 @@ def run(ctx):
         ctx.count(("single",) + key, st != "unjudgeable")
         R = realise_single(DP, virocon, c)
         has_equal = R is not None and R["bounds"] is not None and any(lo is not None and lo == hi for lo, hi in R["bounds"])
-        if has_equal:
-            ctx.notes["dispatch_not_compared (equal bounds: parameters held fixed)"] = ctx.notes.get("dispatch_not_compared (equal bounds: parameters held fixed)", 0) + 1
+        if has_equal and R["cons"] is None and calls and calls[0]["engine"] == "curve_fit" and "popt" in calls[0]:
+            hl = coq_held_case(R, calls)
+            if hl is not None:
+                held_lines.append(hl)
+                held_cases.append(c)
+        elif has_equal:
+            ctx.notes["dispatch_not_compared (equal bounds with constraints: SLSQP takes the raw bounds)"] = ctx.notes.get("dispatch_not_compared (equal bounds with constraints: SLSQP takes the raw bounds)", 0) + 1
         if R is not None and not has_equal and (calls or "NotImplementedError" in msg):
             disp_lines.append(coq_dispatch_case(R, calls, "NotImplementedError" if "NotImplementedError" in msg else None))
             disp_cases.append(c)
@@ -1372,11 +1428,11 @@ def run(ctx):
     def shard(name, ls):
         out = []
         for s in range(0, len(ls), 300):
-            scope = "Local Open Scope float_scope.\n" if name == "dispatch" else "Local Open Scope nat_scope.\n"
+            scope = "Local Open Scope float_scope.\n" if name in ("dispatch", "held") else "Local Open Scope nat_scope.\n"
             body = PRELUDE + scope + "Definition results : list nat := [\n" + ";\n".join(ls[s:s + 300]) + "].\nEval vm_compute in results.\n"
             out.append((name + "_%d" % (s // 300), body))
         return out
-    groups = [("protocol", lines, which), ("conddist", cd_lines, cd_cases), ("dispatch", disp_lines, disp_cases)]
+    groups = [("protocol", lines, which), ("conddist", cd_lines, cd_cases), ("dispatch", disp_lines, disp_cases), ("held", held_lines, held_cases)]
     all_items = []
     for name, ls, _ in groups:
         all_items += shard(name, ls)
@@ -1389,7 +1445,9 @@ def run(ctx):
         codes.setdefault(g, []).extend(vlib.parse_term(o[0]))
     names = {1: "model returned no state", 2: "final parameter terms", 3: "_may_fit", 4: "saved data", 5: "_fitted_conditioners",
              6: "order of optimiser calls", 10: "engine", 11: "sigma", 12: "bounds handed to curve_fit", 13: "bounds handed to minimize",
-             14: "constraints handed to minimize", 15: "NotImplementedError"}
+             14: "constraints handed to minimize", 15: "NotImplementedError", 21: "start values of the free parameters handed to curve_fit",
+             22: "box of the free parameters' bounds", 23: "sigma (held path)", 24: "final parameter vector (held values / optimiser result scattered)",
+             25: "held path taken / optimiser consulted", 26: "parameter vector at which the closure handed to curve_fit evaluates the declared function"}
     corr = {}
     suspects_protocol, suspects_single = [], []
     for g, ls, cs in groups:
@@ -1400,7 +1458,7 @@ def run(ctx):
                 ctx.mismatch("%s case" % g, "%s differ: %r" % (names.get(v, v), c if g != "conddist" else c[0]))
                 if g == "protocol":
                     suspects_protocol.append(c)
-                elif g == "dispatch":
+                elif g in ("dispatch", "held"):
                     suspects_single.append(c)
                 else:
                     suspects_protocol.append({"ctbl": c[0]["ctbl"], "ops": [(j, t) for j, t in c[1]["ops"]], "seed": c[0]["seed"], "swap_kw": None})
